@@ -370,6 +370,68 @@ def fidelity_problem(given, held, multivalued):
     return None
 
 
+def ident_bytes(t):
+    b = t.encode('ascii')
+    return bytes([len(b)]) + b
+
+
+def synthetic_set(attr_bytes, label):
+    """a minimal set record body holding one object with the one attribute component: SET type 'T', template of the
+    one label, OBJECT (origin 1, copy 0, name 'X'), then the bytes under test"""
+    return b'\xf0' + ident_bytes('T') + b'\x30' + ident_bytes(label) + b'\x70' + b'\x01\x00' + ident_bytes('X') + attr_bytes
+
+
+def token_matches(given, tok):
+    """does the decoded value token render the given leaf?"""
+    try:
+        if tok[0] == 'd':
+            held = struct.unpack('>d', struct.pack('>Q', int(tok[1:])))[0]
+            if isinstance(given, float):
+                return f64bits(given) == int(tok[1:]) or (math.isnan(given) and math.isnan(held))
+            return sem_equal(given, held)
+        if tok[0] == 'f':       # single precision
+            held = struct.unpack('>f', struct.pack('>I', int(tok[1:])))[0]
+            return isinstance(given, (int, float, bool)) and (held == given or (held != held and given != given)
+                                                              or held == struct.unpack('>f', struct.pack('>f', given))[0])
+        if tok[0] == 'i':
+            return sem_equal(given, int(tok[1:])) or (isinstance(given, bool) and int(given) == int(tok[1:]))
+        if tok[0] == 't':
+            text = bytes.fromhex(tok[1:]).decode('ascii') if tok[1:] != '-' else ''
+            if isinstance(given, ValidatorEnum):
+                return text == given.value
+            if isinstance(given, str):
+                return text == given
+            return text == str(given)       # numbers / booleans written under a text code
+        if tok[0] == 'T':
+            y, tz, mo, d, h, mi, sec, ms = (int(x) for x in tok[1:].split('.'))
+            g = given
+            if isinstance(g, str):
+                _, _, pt = str_parse(g)
+                if pt == '~':
+                    return False
+                gy, gmo, gd, gh, gmi, gs, gus = (int(x) for x in pt.split(','))
+            elif isinstance(g, dtm.datetime):
+                gy, gmo, gd, gh, gmi, gs, gus = (int(x) for x in dt_fields(g).split(','))
+            else:
+                return False
+            q, r = divmod(gus, 1000)
+            gms = q if r < 500 else q + 1 if r > 500 else (q if q % 2 == 0 else q + 1)
+            return (y + 1900, mo, d, h, mi, sec, ms) == (gy, gmo, gd, gh, gmi, gs, min(gms, 999)) and tz == 2
+        if tok[0] in 'or':
+            parts = tok[1:].split('.')
+            if not isinstance(given, EFLRItem):
+                return False
+            o, c, n = parts[-3:]
+            name = bytes.fromhex(n).decode('ascii') if n != '-' else ''
+            ok = (int(o), int(c), name) == (given.origin_reference, given.copy_number, given.name)
+            if tok[0] == 'r':
+                ok = ok and bytes.fromhex(parts[0]).decode('ascii') == given.parent.set_type
+            return ok
+    except Exception:  # noqa
+        return False
+    return False
+
+
 # ---------------------------------------------------------------------------------------------------------
 
 class HC:
@@ -390,11 +452,39 @@ def describe_arg(a):
     return repr(a)
 
 
-def run_stream(chk, model, bres, R, n_per_attr, schema_rows, stream='convert', hc_share=0.25, only=None):
+def pinned_convs(model, schema_rows):
+    """{(set type, label): pinned converter descriptor} as the Lean tables have it (StandardConvs.lean)"""
+    keys = [(st, row[0]) for st in sorted(schema_rows) for row in schema_rows[st]]
+    reps = model.ask([f'convof {st} {label}' for st, label in keys])
+    return dict(zip(keys, reps))
+
+
+def hc_oracle(chk, stream, case, conv, given, enums_pinned):
+    """high-compatibility mode: what may be accepted by a name-like / enumerated attribute (C17), decided from the
+    value alone"""
+    leaves = flat(given) if isinstance(given, (list, tuple)) else [given]
+    for x in leaves:
+        if isinstance(x, ValidatorEnum):
+            continue
+        if not isinstance(x, str):
+            continue
+        if conv == 'validateString':
+            if not (x and all(('A' <= ch <= 'Z') or ('0' <= ch <= '9') or ch in '_-' for ch in x)):
+                chk.fail(f'{stream}:name-accepted-in-mode', case, f'{x!r} accepted in high-compatibility mode; names are '
+                                                                  f'restricted to [A-Z0-9_-]+')
+        elif conv.startswith('enum:'):
+            cls = conv.split(':')[1]
+            if x not in enums_pinned.get(cls, []):
+                chk.fail(f'{stream}:enum-accepted-in-mode', case, f'{x!r} accepted in high-compatibility mode; it is not one '
+                                                                  f'of the {cls} values of the standard')
+
+
+def run_stream(chk, model, bres, R, n_per_attr, schema_rows, stream='convert', hc_share=0.25, only=None, enums_pinned=None):
     """schema_rows: {set_type: [row...]} (the pinned schema). Returns number of cases."""
     if not bres.ok:
         return 0
     pool = Pool()
+    convs = pinned_convs(model, schema_rows)
     by_type = {sc.set_type: sc for sc in SET_CLASSES}
     reqs, cases = [], []
     for st in sorted(schema_rows):
@@ -403,7 +493,7 @@ def run_stream(chk, model, bres, R, n_per_attr, schema_rows, stream='convert', h
             continue
         for row in schema_rows[st]:
             label, pyname = row[0], row[1]
-            if only and not only(st, row):
+            if only and not only(st, row, convs.get((st, label), '')):
                 continue
             for _ in range(n_per_attr):
                 hc = R.random() < hc_share
@@ -424,6 +514,16 @@ def run_stream(chk, model, bres, R, n_per_attr, schema_rows, stream='convert', h
                             outs.append('ok')
                             if vpart is not OTHER or any(k == 'V' for k, _ in parts):
                                 last_ok_value = ('set', vpart)
+                                if hc and enums_pinned is not None:
+                                    hc_oracle(chk, stream, {'set_type': st, 'attribute': pyname, 'label': label,
+                                                            'high_compat': True, 'call': f'item.set_attributes({pyname}={describe_arg(arg)})'},
+                                              convs.get((st, label), ''), vpart, enums_pinned)
+                            if hc and enums_pinned is not None:
+                                for k_, u_ in parts:
+                                    if k_ == 'U' and isinstance(u_, str) and not isinstance(u_, ValidatorEnum):
+                                        hc_oracle(chk, stream, {'set_type': st, 'attribute': pyname, 'label': label, 'high_compat': True,
+                                                                'call': f'item.set_attributes({pyname}={describe_arg(arg)})'},
+                                                  'enum:Unit:1:1', u_, enums_pinned)
                         except Exception as exc:  # noqa
                             outs.append(err_name(exc))
                             # the parts before the failing one were applied: the value part was, iff the held value changed
@@ -450,9 +550,42 @@ def run_stream(chk, model, bres, R, n_per_attr, schema_rows, stream='convert', h
                 reqs.append(f"asg {st} {label} {1 if hc else 0} " + ' '.join(toks))
                 case = {'set_type': st, 'attribute': pyname, 'label': label, 'high_compat': hc,
                         'calls': [f'item.set_attributes({pyname}={d})' for d in descr]}
-                cases.append((case, impl_line, row, last_ok_value, attr, outs))
+                cases.append((case, impl_line, row, last_ok_value, attr, outs, bts))
     replies = model.ask(reqs)
-    for (case, impl_line, row, last_ok, attr, outs), req, rep in zip(cases, reqs, replies):
+    # reader oracle: the attribute component the implementation produced, inside a minimal set record, read by the
+    # strict EFLR reader, against the values the user assigned (no converter model involved)
+    rd_idx = [k for k, c in enumerate(cases) if c[6] not in ('absent', '-') and not c[6].startswith('err:')
+              and c[3] is not None]
+    rd_rep = model.ask([f"peflrv {synthetic_set(bytes.fromhex(cases[k][6]), cases[k][2][0]).hex()}" for k in rd_idx])
+    for k, rr in zip(rd_idx, rd_rep):
+        case, _, row, last_ok, attr, _, bts = cases[k]
+        given = last_ok[1]
+        chk.count(f'{stream}:reader-oracle')
+        if given is None:
+            continue
+        if not rr.startswith('ok'):
+            chk.fail(f'{stream}:component-undecodable', dict(case, attribute_bytes=bts),
+                     f'the attribute component written for {given!r} does not decode under the component grammar')
+            continue
+        body = rr.split('] ', 1)[1] if '] ' in rr else ''
+        comp = body.split('|', 1)[1] if '|' in body else ''
+        if comp == '~' or comp.count(':') < 3:
+            chk.fail(f'{stream}:component-content', dict(case, attribute_bytes=bts), f'assigned {given!r}, decoded {comp!r}')
+            continue
+        cnt, rc, units, vals = comp.split(':', 3)
+        toks = [] if vals == '-' else vals.split(',')
+        g = flat(given) if isinstance(given, (list, tuple)) else [given]
+        if any(x is None or x is OTHER for x in g):
+            continue
+        if int(cnt) != (len(g) if (isinstance(given, (list, tuple)) or row[4]) else 1) or len(toks) != len(g):
+            chk.fail(f'{stream}:component-count', dict(case, attribute_bytes=bts),
+                     f'assigned {len(g)} value(s) {given!r}; the component announces {cnt} and carries {len(toks)}')
+            continue
+        bad = [(a, t) for a, t in zip(g, toks) if not token_matches(a, t)]
+        if bad:
+            chk.fail(f'{stream}:component-value', dict(case, attribute_bytes=bts, representation_code=rc),
+                     f'assigned {bad[0][0]!r} (in {given!r}); a reader decodes {bad[0][1]} under code {rc}')
+    for (case, impl_line, row, last_ok, attr, outs, _b), req, rep in zip(cases, reqs, replies):
         key = (case['set_type'], case['label'], req)
         chk.case(stream, nontrivial_key=hash(key), sample={'request': req[:300], 'impl': impl_line[:300]})
         chk.count(f"{stream}:{row[2]}:{'/'.join(sorted(set(outs)))}")
